@@ -213,9 +213,9 @@ type state struct {
 	path []batch // from the initial builder state
 	init []int8
 	// snapshot of everything the tree occupies in st, and of the btree struct
-	snap             [][]byte
-	root             uint64
-	levels, count    int
+	snap          [][]byte
+	root          uint64
+	levels, count int
 }
 
 // freeze records the storage bytes [1,size) of the state's stor (the tree's
@@ -572,6 +572,11 @@ func (s *searcher) fail(class string, st *state, b batch, f string, a ...any) {
 		if _, dup := classSeen.LoadOrStore(class, true); dup {
 			return
 		}
+		// development aid for mutant runs: VERIF_TREAT_AS_KNOWN=class,class
+		// only counts these classes (as a KNOWN_FINDINGS entry would)
+		if strings.Contains(","+os.Getenv("VERIF_TREAT_AS_KNOWN")+",", ","+class+",") {
+			return
+		}
 	}
 	path := append(append([]batch(nil), st.path...), b)
 	if b == nil {
@@ -642,12 +647,20 @@ func (s *searcher) admit(parent *state, b batch, bt *btree.T, bst *stor.Stor, ms
 func (s *searcher) expand(p *state) {
 	c := s.c
 	_, plevels, _ := p.bt.VerifRoot()
+	fl := newFlight()
+	defer fl.done()
 	s.u.batches(p.ms, func(b batch) {
 		if c.Stopped() {
 			return
 		}
 		ib := s.u.toIxbuf(p.ms, b)
 		var child *btree.T
+		fl.begin(func() (any, string) {
+			path := append(append([]batch(nil), p.path...), b)
+			return failCase{s.split, s.u.Name, p.init, path},
+				fmt.Sprintf("split=%d universe=%s init=%v path=%v", s.split, s.u.Name, p.init, path)
+		})
+		defer fl.end()
 		e := lib.Try(func() { child = p.bt.MergeAndSave(ib.Iter()) })
 		c.Eval(1)
 		c.Transition(1)
@@ -762,6 +775,7 @@ func (l logCounter) Write(p []byte) (int, error) {
 }
 
 func run(c *lib.Ctx) {
+	startWatchdog(c, "C10")
 	log.SetOutput(logCounter{c})
 	if f := os.Getenv("VERIF_PPROF"); f != "" {
 		w, _ := os.Create(f)
